@@ -69,7 +69,7 @@ type c25Harness struct {
 	wd      *walletDispatcher
 	probe   *c25Probe
 	points  [c25Wallets][2]*big.Int // the wallets' public key coordinates
-	current [c25Wallets]*c25Action // model: the action the wallet is busy with
+	current [c25Wallets]*c25Action  // model: the action the wallet is busy with
 	all     []*c25Action
 	refused []*c25Action
 	log     []string
